@@ -389,6 +389,9 @@ bool aiounicast_nonblock::Send
 				std::cerr << "aiounicast_nonblock(" << j <<
 					"): IV send timeout for " << i_in << std::endl;
 				delete [] buf;
+				// the cipher has advanced and the IV may be incomplete on the wire:
+				// the link is out of step, refuse further output on it
+				fd_out.erase(i_in);
 				return false;
 			}
 			else
@@ -440,6 +443,11 @@ bool aiounicast_nonblock::Send
 	{
 		std::cerr << "aiounicast_nonblock(" << j << "):" <<
 			" send timeout for " << i_in << std::endl;
+		// an incomplete line on the wire, or cipher, MAC or sequence number
+		// already advanced for a message that was not sent: the link is out
+		// of step, refuse further output on it instead of corrupting it
+		if ((realnum > 0) || aio_is_encrypted || aio_is_authenticated)
+			fd_out.erase(i_in);
 		return false;
 	}
 	if (aio_is_authenticated)
@@ -507,6 +515,7 @@ bool aiounicast_nonblock::Send
 		{
 			std::cerr << "aiounicast_nonblock(" << j <<	"):" <<
 				" MAC send timeout for " << i_in << std::endl;
+			fd_out.erase(i_in); // line without its complete tag on the wire
 			return false;
 		}
 		mpz_add_ui(mac_sqn_out[i_in], mac_sqn_out[i_in], 1UL);
